@@ -22,6 +22,7 @@ type opSpec struct {
 	Fail   []string `json:"fail,omitempty"` // labels whose bodies fail in this build
 	Index  bool     `json:"prefer_index,omitempty"`
 	Twice  bool     `json:"run_twice,omitempty"`
+	Reload bool     `json:"reload,omitempty"`               // watch mode: Reload() the Project of the previous operation instead of a fresh Load
 	DryNil bool     `json:"dry_then_nil_options,omitempty"` // on one loaded project: a dry run, (N=1: Reload,) then Run with nil options
 	N      int      `json:"n,omitempty"`
 }
